@@ -347,14 +347,32 @@ uniqueDomainsLoop:
 	for _, addrStr := range slices.Sorted(maps.Keys(domainsByAddr)) {
 		domains := domainsByAddr[addrStr]
 
-		// build the matcher set for this redirect route; (note that we happen
-		// to bypass Provision and Validate steps for these matcher modules)
+		// build the matcher set for this redirect route; (note that these
+		// matcher modules are not loaded from JSON, so they do not go through
+		// the usual Provision and Validate steps)
 		matcherSet := MatcherSet{MatchProtocol("http")}
 		// match on known domain names, unless it's our special case of a
 		// catch-all which is an empty string (common among catch-all sites
 		// that enable on-demand TLS for yet-unknown domain names)
 		if !(len(domains) == 1 && domains[0] == "") {
-			matcherSet = append(matcherSet, MatchHost(domains))
+			// a host matcher with a large list relies on the layout that its
+			// Provision creates (sorted, exact names lower-cased), so it has to
+			// be provisioned here; names that differ only by letter case, e.g.
+			// from the host matchers of two routes, are repeated names to
+			// Provision, so keep only the first of them
+			hostMatcher := make(MatchHost, 0, len(domains))
+			seen := make(map[string]struct{}, len(domains))
+			for _, d := range domains {
+				if _, ok := seen[strings.ToLower(d)]; ok {
+					continue
+				}
+				seen[strings.ToLower(d)] = struct{}{}
+				hostMatcher = append(hostMatcher, d)
+			}
+			if err := hostMatcher.Provision(ctx); err != nil {
+				return fmt.Errorf("redirect route for %s: %v", addrStr, err)
+			}
+			matcherSet = append(matcherSet, hostMatcher)
 		}
 
 		addr, err := caddy.ParseNetworkAddress(addrStr)
